@@ -44,7 +44,31 @@ def main():
         # 3. audit
         audit_res, audit_log = common.audit(prop)
         # 4. correspondence + property-level tests
-        mod.run(ctx)
+        try:
+            mod.run(ctx)
+        except (common.Infra, SystemExit):
+            raise
+        except Exception as e:
+            # who raised? walk the traceback from the innermost frame outwards, skipping third-party frames: if the first frame
+            # that belongs to us or to the code under test lies in the repository, the IMPLEMENTATION raised on an input that the
+            # harness generates for the pinned code (which accepts it): that is a failure of the implementation, with the
+            # traceback as replay; if it lies in the harness, it is our bug (infrastructure failure).
+            repo = os.path.realpath(common.REPO)
+            who = None
+            for fr in reversed(traceback.extract_tb(e.__traceback__)):
+                fn = os.path.realpath(fr.filename)
+                if fn.startswith(repo + os.sep):
+                    who = ('impl', fr)
+                    break
+                if fn.startswith(os.path.realpath(HERE) + os.sep):
+                    who = ('harness', fr)
+                    break
+            if who is None or who[0] != 'impl':
+                raise
+            fr = who[1]
+            ctx.fail('%s:%s' % (os.path.relpath(fr.filename, repo), fr.name),
+                     'the implementation raised %r on an input the pinned code accepts (the run stopped here)' % (e,),
+                     dict(traceback=traceback.format_exc()[-3000:]))
         ctx.flush()
         # 5. verdict
         rc = common.finish(ctx, audit_res, audit_log, build_ok, build_log, mod.RULE,
